@@ -128,8 +128,8 @@ theorem genMeta_good {s : State} (hg : GoodStore H crc s) (name : Name) (pl : In
       · exact hg
       · exact setTM_good hg name _ ⟨b, good_readable hg hb, rfl⟩
 
-theorem putFile_good {s : State} (hg : GoodStore H crc s) {name : Name} {b : Bytes} (hb : H b = name) :
-    GoodStore H crc { s with cache := KV.put s.cache name { data := b } } :=
+theorem putFile_good {s : State} (hg : GoodStore H crc s) {name : Name} {b : Bytes} (hb : H b = name) (sh : List String) :
+    GoodStore H crc { s with cache := KV.put s.cache name { data := b }, shards := sh } :=
   ⟨hg.mem,
    KV.all_put (P := fun k (v : CacheFile) => H v.data = k ∧ ∀ mi, v.tm = some mi → MIok H crc k mi)
      hg.cache ⟨hb, by intro mi h; cases h⟩,
@@ -140,7 +140,7 @@ theorem ensureFile_good {s : State} (hg : GoodStore H crc s) {name : Name} {b : 
   unfold ensureFile
   split
   · exact hg
-  · exact putFile_good hg hb
+  · exact putFile_good hg hb _
 
 theorem writeCacheFile_good {s : State} (hs : s.cfg.skipVerify = false) (hg : GoodStore H crc s)
     (name : Name) (att : Option Attempt) (addMeta : Bool) (pl : Int) :
@@ -157,8 +157,10 @@ theorem writeCacheFile_good {s : State} (hs : s.cfg.skipVerify = false) (hg : Go
         have hv' : verifyOK H s.cfg name a.data = true := by simpa using hv
         have hb := verifyOK_hash hs hv'
         split
-        · exact genMeta_good (ensureFile_good hg hb) name pl
-        · exact ensureFile_good hg hb
+        · exact hg
+        · split
+          · exact genMeta_good (ensureFile_good hg hb) name pl
+          · exact ensureFile_good hg hb
 
 theorem commitUpload_good {s : State} (hs : s.cfg.skipVerify = false) (hg : GoodStore H crc s)
     (u : String) (name : Name) : GoodStore H crc (commitUpload H s u name).1 := by
@@ -173,7 +175,9 @@ theorem commitUpload_good {s : State} (hs : s.cfg.skipVerify = false) (hg : Good
       have hv' : verifyOK H s.cfg name b = true := by simpa using hv
       split
       · exact hg0
-      · exact putFile_good hg0 (verifyOK_hash hs hv')
+      · split
+        · exact hg0
+        · exact putFile_good hg0 (verifyOK_hash hs hv') _
 
 theorem addToMem_good {s : State} (hs : s.cfg.skipVerify = false) (hg : GoodStore H crc s)
     (name : Name) (att : Option Attempt) (size : Nat) (pl : Int) (s' : State)
@@ -377,6 +381,8 @@ theorem apply_cfg (s : State) (o : Op) : (apply H crc s o).1.cfg = s.cfg := by
   | ttl => rfl
   | tick dt => rfl
   | delete n => simp only [apply, deleteCache]; split <;> rfl
+  | block p => simp only [apply, block]; split <;> rfl
+  | unblock p => simp only [apply, unblock]; split <;> rfl
 
 theorem apply_good {s : State} (hs : s.cfg.skipVerify = false) (hg : GoodStore H crc s) (o : Op) :
     GoodStore H crc (apply H crc s o).1 := by
@@ -391,6 +397,8 @@ theorem apply_good {s : State} (hs : s.cfg.skipVerify = false) (hg : GoodStore H
   | ttl => exact ttlSweep_good hg
   | tick dt => exact hg.of_eq rfl rfl rfl
   | delete n => exact deleteCache_good hg n
+  | block p => simp only [apply, block]; split <;> first | exact hg | exact hg.of_eq rfl rfl rfl
+  | unblock p => simp only [apply, unblock]; split <;> first | exact hg | exact hg.of_eq rfl rfl rfl
 
 /-! ### writes whose content does not hash to the name -/
 
@@ -447,6 +455,89 @@ theorem drop1_head?_mem {α : Type} {l : List α} {a : α} (h : (l.drop 1).head?
   cases l with
   | nil => cases h
   | cons x xs => exact List.mem_cons_of_mem _ (head?_mem (by simpa using h))
+
+/-! ### inside a write-through call -/
+
+theorem addToMem_some {s s' : State} {name : Name} {a : Attempt} {size : Nat} {pl : Int}
+    (h : addToMem H crc s name (some a) size pl = some s') :
+    verifyOK H s.cfg name a.data = true ∧
+    s' = { s with mem := (MemCache.add s.mem name (newEntry crc s name a.data pl)).1,
+                  queue := s.queue ++ [{ name := name, data := a.data, mi := miOf crc name a.data pl, retries := 0 }] } := by
+  unfold addToMem at h
+  simp only at h
+  split at h
+  · cases h
+  · split at h
+    · cases h
+    · split at h
+      · cases h
+      · rename_i hv
+        split at h
+        · cases h
+        · split at h
+          · cases h
+          · cases h
+            exact ⟨by simpa using hv, rfl⟩
+
+theorem diskTrace_good {s : State} (hs : s.cfg.skipVerify = false) (hg : GoodStore H crc s)
+    (name : Name) (size : Nat) (att : Option Attempt) (pl : Int) :
+    ∀ s' ∈ diskTrace H crc s name size att pl, GoodStore H crc s' := by
+  intro s' hm
+  unfold diskTrace at hm
+  split at hm
+  · cases hm
+  · rename_i a
+    split at hm
+    · cases hm
+    · split at hm
+      · cases hm
+      · rename_i hv
+        have hb := verifyOK_hash hs (by simpa using hv : verifyOK H s.cfg name a.data = true)
+        have he := ensureFile_good hg hb
+        split at hm
+        · cases hm
+        rcases List.mem_cons.mp hm with e | hm
+        · subst e; exact he
+        · split at hm
+          · simp at hm; subst hm; exact genMeta_good he name pl
+          · cases hm
+
+theorem published_good {s : State} (hs : s.cfg.skipVerify = false) (hg : GoodStore H crc s) {name : Name}
+    {a : Attempt} (pl : Int) (hv : verifyOK H s.cfg name a.data = true) : GoodStore H crc (published crc s name a pl) := by
+  have hb := verifyOK_hash hs hv
+  unfold published MemCache.add
+  split
+  · exact hg.of_eq rfl rfl rfl
+  · refine ⟨?_, hg.cache, hg.queue⟩
+    intro p hp
+    simp at hp
+    rcases hp with e | hp
+    · subst e; exact ⟨hb, rfl⟩
+    · exact hg.mem p hp
+
+/-- every state a reader can see while `WriteBlobToCacheWithMetaInfo` runs is a good store -/
+theorem writeBlobTrace_good {s : State} (hs : s.cfg.skipVerify = false) (hg : GoodStore H crc s)
+    (name : Name) (size : Nat) (atts : List Attempt) (pl : Int) :
+    ∀ s' ∈ writeBlobTrace H crc s name size atts pl, GoodStore H crc s' := by
+  intro s' hm
+  unfold writeBlobTrace at hm
+  have hres : GoodStore H crc (reserved s size) := reserved_good hg size
+  have hrel : GoodStore H crc (released (reserved s size) size) := released_good hres size
+  split at hm
+  · rcases List.mem_cons.mp hm with e | hm
+    · subst e; exact hres
+    · split at hm
+      · rename_i s2 a h2 ha
+        rw [ha] at h2
+        obtain ⟨hv, e2⟩ := addToMem_some h2
+        rcases List.mem_cons.mp hm with e | hm
+        · subst e; exact published_good (s := reserved s size) hs hres pl hv
+        · simp at hm; rw [hm]
+          exact addToMem_good (s := reserved s size) hs hres name (some a) size pl s2 h2
+      · rcases List.mem_cons.mp hm with e | hm
+        · subst e; exact hrel
+        · exact diskTrace_good (s := released (reserved s size) size) hs hrel name size _ pl s' hm
+  · exact diskTrace_good hs hg name size _ pl s' hm
 
 /-! ### the origin's HTTP operations are compositions of store operations -/
 
